@@ -28,10 +28,10 @@ class EnumRecursiveEncoder(QuasiLazyEncoder):
             return []
 
         n = self.n_divide
-        n_var = int(np.ceil(np.log(n_mat)/np.log(n)))
 
         # Get design vector values that lead to inactive variables (due to nr cutoff)
         dv_last = np.array(self.base_repr_int(n_mat-1, n))
+        n_var = len(dv_last)  # Nr of digits of the last index (a log ratio rounds up wrongly for exact powers, e.g. 3**3)
         i_inactive = np.where(dv_last == 0)[0]
         if len(i_inactive) > 0:
             left_side_values = dv_last[:i_inactive[-1]+1].copy()
